@@ -8,6 +8,8 @@ built on the slice routes over the same object. Byte order / untouched neighbour
 routes are value-level and not decided.
 """
 import re
+from .. import loops
+from ..bounds import norm
 
 from ..mir import deep_strip, tstr, strip_generics, canon, subterms, is_call
 from .. import effects, tracking
@@ -224,7 +226,19 @@ def run(ctx, progs):
                                         ok = has_n and has_b
                                         d = f"loop over buf[..min(buf.len(), self.nelem)]: bounded by both sides [{ok}]"
                 adds = [c for c in b.calls() if re.search(r"(const_ptr|mut_ptr)::add$", canon(c.target or "")) and unref(c.args()[1]) == ('const', 1)]
-                ctx.ob("R4.2.element_loop", b.key, ok and len(adds) == 1, b.where(), d + f"; pointer advanced by one element per iteration [{len(adds) == 1}]")
+                # the same walk spelt with `enumerate()`: the i-th item is moved to / from `start.add(i)`, start being the guard's pointer
+                ils = loops.iter_loops(b, eff)
+                want_n = norm(('call', 'core::cmp::Ord::min', (('call', 'core::slice::<impl [T]>::len', (('param', 2, b.local_name(2)),)), ('field', ('param', 1, b.local_name(1)), 'nelem'))))
+                il = ils[0] if len(ils) == 1 else None
+                if il is not None and not ok and il["count"] is not None and norm(il["count"]) == want_n:
+                    ok = True
+                    d = f"loop over an iterator chain that yields min(buf.len(), self.nelem) items: bounded by both sides [{ok}]"
+                stepped = len(adds) == 1
+                if il is not None and not adds:
+                    idx_adds = [c for c in b.calls() if c.bb in il["blocks"] and re.search(r"(const_ptr|mut_ptr)::add$", canon(c.target or ""))
+                                and loops.enum_index_of(b, il, c.args()[1]) and eff.origin(b, c.args()[0])[0] in ('guard', 'guard_value')]
+                    stepped = len(idx_adds) == 1
+                ctx.ob("R4.2.element_loop", b.key, ok and stepped, b.where(), d + f"; pointer advanced by one element per iteration [{stepped}]")
                 if nm == "copy_to":
                     of = [c for c in b.calls() if re.search(r"offset_from(_unsigned)?$", canon(c.target or ""))]
                     okr = False
@@ -233,7 +247,22 @@ def run(ctx, progs):
                         okr = a[0][0] == 'var' and eff.origin(b, a[1])[0] in ('guard', 'guard_value')
                         rts = [unref(t) for _p, t in b.return_terms()]
                         okr = okr and any(any(x == deep_strip(b.call_term(of[0].t, of[0].pos, 0)) for x in subterms(t)) for t in rts)
-                    ctx.ob("R4.2.element_return", b.key, okr, b.where(), "returns ptr.offset_from(start): the number of ELEMENTS copied")
+                    if not of and il is not None:
+                        # `copied = i + 1` on every iteration of a loop that is only left when the chain is exhausted, 0 before it: the
+                        # number of items the chain yielded, i.e. of elements moved
+                        fast = [c for c in b.calls() if canon(c.target or "").endswith("copy_slice_impl::copy_from_volatile_slice")]
+                        n_cnt = 0
+                        okr = True
+                        for pos_, t_ in b.return_terms():
+                            u_ = unref(t_)
+                            if u_ == ('const', 0) or (fast and is_call(u_, "copy_from_volatile_slice")):
+                                continue
+                            if loops.counts_iterations(b, il, pos_, u_):
+                                n_cnt += 1
+                                continue
+                            okr = False
+                        okr = okr and n_cnt == 1
+                    ctx.ob("R4.2.element_return", b.key, okr, b.where(), "returns ptr.offset_from(start) (or the iteration count of the element loop): the number of ELEMENTS copied")
         # ------------------------------------------------------------ R4.3 who may touch container memory
         touched = {}
         for role in ("dst", "src"):
